@@ -94,7 +94,11 @@ def check_c13(case, stats):
     return
   if g > gref + 5e-4 * max(1.0, abs(gref)):
     raise Violation('C13/objective-gap/' + tag, 'g(M) = %r, independently computed optimum %r (sparsity %g, balance %g)' % (g, gref, lam, bal))
-  # sub-gradient certificate
+  # sub-gradient certificate - only meaningful when the library's solution is converged tightly (scikit-learn stops on
+  # a 1e-4 duality gap; with a looser solution KKT residuals of a few percent were observed on the unchanged tree)
+  if g > gref + 1e-6 * max(1.0, abs(gref)):
+    stats.case(case, bool(indefinite), [name, 'in-domain', 'prior:' + case['prior'], 'kkt-skipped (objective gap > 1e-6)'])
+    return
   W = np.linalg.inv(M)
   sc = max(np.abs(S).max(), lam)
   if np.abs(np.diag(W) - np.diag(S)).max() > 2e-2 * sc:
